@@ -160,6 +160,75 @@ fn real_main(args: &[String], props: &[&dyn Prop]) -> i32 {
             }
             0
         }
+        "dbgmasl" => {
+            use vm_core::utils::{Deserializable, Serializable};
+            let v: serde_json::Value = serde_json::from_str(&std::fs::read_to_string(&args[1]).unwrap()).unwrap();
+            let libs = world::asm::build_libs(&v["scenario"]["libs"], true).unwrap();
+            for l in libs {
+                let b = l.to_bytes();
+                let back = assembly::MaslLibrary::read_from_bytes(&b).unwrap();
+                println!("equal={}", back == l);
+                std::fs::write("/tmp/masl_a.txt", format!("{:#?}", l)).unwrap();
+                std::fs::write("/tmp/masl_b.txt", format!("{:#?}", back)).unwrap();
+                if back != l {
+                    break;
+                }
+            }
+            0
+        }
+        "q2test" => {
+            use vm_core::{Felt, FieldElement, QuadExtension, StarkField};
+            type Q = QuadExtension<Felt>;
+            let v: Vec<u64> = args[1..].iter().map(|x| x.parse().unwrap()).collect();
+            let a = Q::new(Felt::new(v[0]), Felt::new(v[1]));
+            let b = Q::new(Felt::new(v[2]), Felt::new(v[3]));
+            let bi = b.inv();
+            let show = |q: Q| q.to_base_elements().iter().map(|x| x.as_int()).collect::<Vec<_>>();
+            println!("inv(b) = {:?}", show(bi));
+            println!("b*inv(b) = {:?}", show(b * bi));
+            println!("a*inv(b) = {:?}", show(a * bi));
+            println!("a/b = {:?}", show(a / b));
+            0
+        }
+        "bomb" => {
+            // deeply nested blocks through parser, encoder, decoder; prints the stages it survives
+            use assembly::ast::{AstSerdeOptions, ProgramAst};
+            use std::io::Write;
+            let depth: usize = args.get(1).and_then(|s| s.parse().ok()).unwrap_or(10);
+            let mut src = String::from("begin ");
+            for _ in 0..depth {
+                src.push_str("push.1 if.true ");
+            }
+            src.push_str("push.1 ");
+            for _ in 0..depth {
+                src.push_str("end ");
+            }
+            src.push_str("end");
+            let say = |m: &str| {
+                println!("{m}");
+                let _ = std::io::stdout().flush();
+            };
+            say("STAGE start");
+            let ast = match ProgramAst::parse(&src) {
+                Ok(a) => a,
+                Err(_) => {
+                    say("STAGE parse-rejected");
+                    return 0;
+                }
+            };
+            say("STAGE parsed");
+            let bytes = ast.to_bytes(AstSerdeOptions::new(true));
+            say("STAGE encoded");
+            let back = ProgramAst::from_bytes(&bytes);
+            say(if back.is_ok() { "STAGE decoded" } else { "STAGE decode-rejected" });
+            if let Ok(b) = back {
+                say(if b == ast { "STAGE equal" } else { "STAGE differs" });
+                drop(b);
+            }
+            drop(ast);
+            say("STAGE done");
+            0
+        }
         "obs" => {
             if args.len() < 2 {
                 return usage();
